@@ -4,26 +4,43 @@ CU = "vectorizers/coo_utils.py::"
 CONTRACTS = {}
 
 # ngram_behaviour is a string parameter: one variant per documented value (python string equality is decided concretely)
+# subgrams: position i contributes the runs sequence[i:i+j] for j = 1..min(n, len - i); _CNT[t] is that number
+_CNT = "cnt"   # ghost list, built once: cnt[t] = min(ngram_size, len(sequence) - t)
+_SUB = "ngram_behaviour == 'subgrams'"
+_RUN_SHAPE = ("len(starts) == len(result) and forall(0, len(result), lambda g: 1 <= len(result[g]) and len(result[g]) <= ngram_size and 0 <= starts[g] and "
+              "starts[g] + len(result[g]) <= len(sequence))")
+_RUN_ELEMS = "forall(0, len(result), lambda g: forall(0, len(result[g]), lambda t: result[g][t] == sequence[starts[g] + t]))"
 CONTRACTS[N + "ngrams_of"] = dict(
     params=dict(sequence="int[]", ngram_size="int", ngram_behaviour="strconst:exact"),
     variants=[dict(ngram_behaviour="strconst:exact"), dict(ngram_behaviour="strconst:subgrams")],
-    local_types=dict(result="list[int[]]"),
+    local_types=dict(result="list[int[]]", starts="list[int]", cnt="list[int]"),
     requires=["ngram_size >= 1"],
     returns="list[int[]]",
+    # ghost: cnt[t] = number of runs starting at t; starts[g] = where the g-th emitted run starts
+    ghost_init="cnt = [min(ngram_size, len(sequence) - t) for t in range(len(sequence))]\nstarts = []",
+    ghost_after=[("result.append(sequence[i:i + j])", 1, "starts.append(i)")],
     ensures=[
         # exact: the runs of n consecutive elements, in order; every slice is in range
         "implies(ngram_behaviour == 'exact', len(result) == max(0, len(sequence) - ngram_size + 1))",
         "implies(ngram_behaviour == 'exact', forall(0, len(result), lambda g: len(result[g]) == ngram_size))",
         "implies(ngram_behaviour == 'exact', forall(0, len(result), lambda g: forall(0, ngram_size, lambda t: result[g][t] == sequence[g + t])))",
         "unchanged(sequence)",
+        # subgrams: exactly sum_i min(n, len - i) runs are emitted (so a document shorter than n still yields its shorter runs)
+        "implies(%s, len(result) == psum(%s, len(sequence)))" % (_SUB, _CNT),
     ],
+    # ... and each of them is a contiguous run of 1..n elements of the sequence (starts is ghost)
+    ensures_ghost=["implies(%s, %s)" % (_SUB, _RUN_SHAPE), "implies(%s, %s)" % (_SUB, _RUN_ELEMS)],
     loops={
         "for#1": dict(invariant=[
             "implies(ngram_behaviour == 'exact', len(result) == min(i, max(0, len(sequence) - ngram_size + 1)))",
             "implies(ngram_behaviour == 'exact', forall(0, len(result), lambda g: len(result[g]) == ngram_size))",
             "implies(ngram_behaviour == 'exact', forall(0, len(result), lambda g: forall(0, ngram_size, lambda t: result[g][t] == sequence[g + t])))",
+            "implies(%s, len(result) == psum(%s, i))" % (_SUB, _CNT),
+            "implies(%s, %s)" % (_SUB, _RUN_SHAPE), "implies(%s, %s)" % (_SUB, _RUN_ELEMS),
         ]),
-        "for#2": dict(invariant=["True"]),
+        "for#2": dict(ghost_init="lemma(psum_bound(%s, i, len(sequence)))" % _CNT,
+                      invariant=["len(result) == psum(%s, i) + min(_k_for2, len(sequence) - i)" % _CNT,
+                                 _RUN_SHAPE, _RUN_ELEMS]),
     },
 )
 
